@@ -390,3 +390,184 @@ Proof.
   - rewrite loc_line. pose proof (count_lf_firstn_le bs e). lia.
   - intro Hlt. apply loc_strict; assumption.
 Qed.
+
+(* ------------------------------------------------------------------------------------------------ *)
+(* parser side: the position mapping and Parser.currentLocation *)
+
+Definition span_of (own : bool) (t : srctok) (j : nat) : loc * loc :=
+  match st_parts t with
+  | [] | [_] => (st_start t, st_end t)
+  | ws => part_span own (st_start t) (st_end t) ws j
+  end.
+
+Lemma nth_error_seq : forall n s j, j < n -> nth_error (seq s n) j = Some (s + j).
+Proof.
+  induction n as [|n IH]; intros s j H; [lia|]. destruct j as [|j]; cbn [seq nth_error].
+  - f_equal. lia.
+  - rewrite IH by lia. f_equal. lia.
+Qed.
+
+Lemma tok_positions_length : forall own oi t, length (tok_positions own oi t) = nparts t.
+Proof.
+  intros own oi t. unfold tok_positions, nparts. destruct (st_parts t) as [|w [|w' r]]; [reflexivity|reflexivity|].
+  rewrite map_length, seq_length. reflexivity.
+Qed.
+
+Lemma tok_positions_nth : forall own oi t j, j < nparts t ->
+  nth_error (tok_positions own oi t) j = Some (oi, span_of own t j).
+Proof.
+  intros own oi t j H. unfold tok_positions, nparts, span_of in *. destruct (st_parts t) as [|w [|w' r]].
+  - replace j with 0 by lia. reflexivity.
+  - cbn [length] in H. replace j with 0 by lia. reflexivity.
+  - rewrite nth_error_map, nth_error_seq by exact H. reflexivity.
+Qed.
+
+Lemma conv_positions_nth : forall ts own b oi t j, nth_error ts oi = Some t -> j < nparts t ->
+  nth_error (conv_positions own b ts) (flat_index ts oi + j) = Some (b + oi, span_of own t j).
+Proof.
+  induction ts as [|a r IH]; intros own b oi t j Hn Hj.
+  - destruct oi; discriminate.
+  - destruct oi as [|k]; cbn [nth_error] in Hn.
+    + injection Hn as ->. cbn [flat_index conv_positions plus].
+      rewrite nth_error_app1 by (rewrite tok_positions_length; exact Hj).
+      rewrite tok_positions_nth by exact Hj. rewrite Nat.add_0_r. reflexivity.
+    + cbn [flat_index conv_positions].
+      rewrite nth_error_app2 by (rewrite tok_positions_length; lia).
+      rewrite tok_positions_length.
+      replace (nparts a + flat_index r k + j - nparts a) with (flat_index r k + j) by lia.
+      rewrite (IH own (S b) k t j Hn Hj). f_equal. f_equal. lia.
+Qed.
+
+Lemma conv_positions_length : forall ts own b, length (conv_positions own b ts) = flat_index ts (length ts).
+Proof.
+  induction ts as [|a r IH]; intros own b; [reflexivity|].
+  cbn [conv_positions flat_index length]. rewrite app_length, tok_positions_length, IH. reflexivity.
+Qed.
+
+(* the location an error raised with the cursor on part j of tokenizer token oi carries *)
+Theorem error_at_offending_token : forall own ts oi t j, nth_error ts oi = Some t -> j < nparts t ->
+  current_location (Some (conv_positions own 0 ts)) (flat_index ts oi + j) = fst (span_of own t j).
+Proof.
+  intros own ts oi t j Hn Hj. unfold current_location.
+  rewrite (conv_positions_nth ts own 0 oi t j Hn Hj). reflexivity.
+Qed.
+
+(* an ordinary token, and the first keyword of a split one, are located at the token's own Start *)
+Lemma span_of_first : forall own t, fst (span_of own t 0) = st_start t.
+Proof.
+  intros own t. unfold span_of. destruct (st_parts t) as [|w [|w' r]]; [reflexivity|reflexivity|].
+  unfold part_span. destruct (own && fits (st_start t) (st_end t) (w :: w' :: r)); reflexivity.
+Qed.
+
+Theorem error_at_plain_token : forall own ts oi t, nth_error ts oi = Some t ->
+  current_location (Some (conv_positions own 0 ts)) (flat_index ts oi) = st_start t.
+Proof.
+  intros own ts oi t Hn. rewrite <- (Nat.add_0_r (flat_index ts oi)).
+  rewrite (error_at_offending_token own ts oi t 0 Hn).
+  - apply span_of_first.
+  - unfold nparts. destruct (st_parts t); cbn; lia.
+Qed.
+
+(* no token under the cursor (or no mapping at all): the zero Location *)
+Theorem error_beyond_tokens : forall own ts cursor, flat_index ts (length ts) <= cursor ->
+  current_location (Some (conv_positions own 0 ts)) cursor = (0, 0).
+Proof.
+  intros own ts cursor H. unfold current_location.
+  replace (nth_error (conv_positions own 0 ts) cursor) with (@None (nat * (loc * loc))); [reflexivity|].
+  symmetry. apply nth_error_None. rewrite conv_positions_length. exact H.
+Qed.
+Theorem error_without_mapping : forall cursor, current_location None cursor = (0, 0).
+Proof. reflexivity. Qed.
+
+(* ------------------------------------------------------------------------------------------------ *)
+(* sub-spans of split compound keywords *)
+
+Lemma loc_step_exact : forall bs i b, nth_error bs i = Some b -> b <> LF ->
+  to_loc bs (S i) = (fst (to_loc bs i), snd (to_loc bs i) + bwidth b).
+Proof.
+  intros bs i b Hn Hb. destruct (line_start_exists bs i) as [s Hs].
+  assert (Hs' : is_line_start bs (S i) s).
+  { apply (is_line_start_step bs i s Hs). rewrite Hn. intro H. injection H as H. contradiction. }
+  rewrite (to_loc_spec _ _ _ Hs), (to_loc_spec _ _ _ Hs'). cbn [fst snd].
+  rewrite firstn_S_snoc, Hn, count_lf_app.
+  assert (Hc : count_lf [b] = 0).
+  { unfold count_lf. cbn [filter]. replace (is_lf b) with false by (symmetry; apply is_lf_false; exact Hb). reflexivity. }
+  rewrite Hc. rewrite slice_S by (destruct Hs as [H _]; exact H). rewrite Hn, width_app.
+  cbn [width fold_right]. f_equal; lia.
+Qed.
+
+Definition plain_bytes (bs : list N) (a b : nat) : Prop :=
+  forall k, a <= k < b -> exists x, nth_error bs k = Some x /\ x <> LF /\ x <> TAB.
+
+Lemma loc_advance : forall w bs i, plain_bytes bs i (i + w) ->
+  to_loc bs (i + w) = (fst (to_loc bs i), snd (to_loc bs i) + w).
+Proof.
+  induction w as [|w IH]; intros bs i H.
+  - rewrite !Nat.add_0_r. destruct (to_loc bs i). reflexivity.
+  - replace (i + S w) with (S (i + w)) by lia.
+    destruct (H (i + w)) as [b [Hn [Hlf Htab]]]; [lia|].
+    rewrite (loc_step_exact bs (i + w) b Hn Hlf). rewrite IH by (intros k Hk; apply H; lia).
+    cbn [fst snd]. unfold bwidth. replace (is_tab b) with false by (symmetry; apply N.eqb_neq; exact Htab).
+    f_equal. lia.
+Qed.
+
+(* for a two-word keyword read by the tokenizer the sub-spans are exactly the reported positions of its words *)
+Theorem split_spans_exact : forall bs so eo w1 w2,
+  so + w1 <= eo - w2 -> w2 <= eo -> plain_bytes bs so (so + w1) -> plain_bytes bs (eo - w2) eo ->
+  fits (to_loc bs so) (to_loc bs eo) [w1; w2] = true /\
+  part_span true (to_loc bs so) (to_loc bs eo) [w1; w2] 0 = (to_loc bs so, to_loc bs (so + w1)) /\
+  part_span true (to_loc bs so) (to_loc bs eo) [w1; w2] 1 = (to_loc bs (eo - w2), to_loc bs eo).
+Proof.
+  intros bs so eo w1 w2 H1 H2 P1 P2.
+  pose proof (loc_advance w1 bs so P1) as A.
+  assert (P2' : plain_bytes bs (eo - w2) (eo - w2 + w2)) by (replace (eo - w2 + w2) with eo by lia; exact P2).
+  pose proof (loc_advance w2 bs (eo - w2) P2') as B. replace (eo - w2 + w2) with eo in B by lia.
+  pose proof (loc_one_based bs so) as [S1 S2]. pose proof (loc_one_based bs (eo - w2)) as [M1 M2].
+  pose proof (loc_monotone bs (so + w1) (eo - w2) H1) as Hm. rewrite A in Hm.
+  destruct (to_loc bs so) as [sl sc] eqn:Es. destruct (to_loc bs (eo - w2)) as [ml mc] eqn:Em.
+  cbn [fst snd] in *. rewrite B.
+  assert (F : fits (sl, sc) (ml, mc + w2) [w1; w2] = true).
+  { unfold fits. cbn [length nth fst snd Nat.sub]. replace (mc + w2 - w2) with mc by lia.
+    apply andb_true_intro; split; [apply andb_true_intro; split; [apply andb_true_intro; split|]|].
+    - reflexivity.
+    - apply Nat.leb_le. exact S1.
+    - apply Nat.ltb_lt. lia.
+    - apply lex_leb_le. exact Hm. }
+  split; [exact F|]. unfold part_span. rewrite F. cbn [andb length nth fst snd Nat.sub Nat.eqb].
+  replace (mc + w2 - w2) with mc by lia. rewrite A. split; reflexivity.
+Qed.
+
+(* the sub-spans of one split token are ordered and lie inside the token's span *)
+Theorem split_positions_ordered : forall s e ws i j, fits s e ws = true -> length ws <= 3 -> i < j -> j < length ws ->
+  lex_le (snd (part_span true s e ws i)) (fst (part_span true s e ws j)).
+Proof.
+  intros s e ws i j F Hn Hij Hj. unfold part_span. rewrite F. cbn [andb].
+  unfold fits in F. apply andb_true_iff in F as [F F4]. apply lex_leb_le in F4.
+  destruct (Nat.eqb_spec i 0) as [Ei|Ei]; destruct (Nat.eqb_spec j 0) as [Ej|Ej];
+    destruct (Nat.eqb_spec i (length ws - 1)) as [Ei'|Ei']; destruct (Nat.eqb_spec j (length ws - 1)) as [Ej'|Ej'];
+    cbn [fst snd]; try lia; try exact F4; try apply lex_le_refl.
+Qed.
+
+Theorem split_positions_inside : forall s e ws i, fits s e ws = true -> lex_le s e ->
+  let sp := part_span true s e ws i in lex_le s (fst sp) /\ lex_le (fst sp) (snd sp) /\ lex_le (snd sp) e.
+Proof.
+  intros s e ws i F Hse. cbv zeta. unfold part_span. rewrite F. cbn [andb].
+  unfold fits in F. apply andb_true_iff in F as [F F4]. apply lex_leb_le in F4.
+  apply andb_true_iff in F as [F F3]. apply Nat.ltb_lt in F3.
+  assert (A : lex_le s (fst s, snd s + nth 0 ws 0)) by (right; cbn [fst snd]; split; [reflexivity|lia]).
+  assert (B : lex_le (fst e, snd e - nth (length ws - 1) ws 0) e) by (right; cbn [fst snd]; split; [reflexivity|lia]).
+  destruct (i =? 0); [|destruct (i =? length ws - 1)]; cbn [fst snd]; repeat split;
+    try exact A; try exact B; try exact F4; try apply lex_le_refl;
+    try (eapply lex_le_trans; [exact A|exact F4]); try (eapply lex_le_trans; [exact F4|exact B]).
+Qed.
+
+(* the behaviour before the repair (every part carries the whole token's span): the end of the first keyword lies
+   after the start of the second *)
+Theorem split_positions_shared_refuted :
+  exists s e ws i j, i < j /\ j < length ws /\ lex_le s e /\
+    ~ lex_le (snd (part_span false s e ws i)) (fst (part_span false s e ws j)).
+Proof.
+  exists (1, 1), (1, 9), [5; 2], 0, 1. cbn. repeat split; try lia.
+  - right. cbn. lia.
+  - intros [H|[_ H]]; cbn in H; lia.
+Qed.
